@@ -184,7 +184,7 @@ def classify(diags, attr):
         for _, p in labels:
             props.update(p)
         if not labels and fn is not None:
-            props.update(fn["props"])
+            props.update(fn.get("primary") or fn["props"])
         failures.append({"message": msg, "labels": [l for l, _ in labels], "label_props": {l: list(p) for l, p in labels},
                          "fn": fn["fn"] if fn else None, "props": sorted(props), "where": where,
                          "rendered": d.get("rendered", "")})
